@@ -207,11 +207,19 @@ def run_case(prop, i, mon, ctx):
     except MonitorViolation:
         pass   # already recorded by the contract that raised it
     except RecursionError as e:
-        mon.violation('harness:exception', {'exception': repr(e)[:300]}, mechanism='RecursionError escaped')
+        mon.violation(raised_where(e), {'exception': repr(e)[:300]}, mechanism='RecursionError escaped')
     except Exception as e:  # an exception escaping check() is a harness or repository error: never silent
-        mon.violation('harness:exception', {'exception': repr(e)[:500], 'trace': traceback.format_exc()[-1500:]},
+        mon.violation(raised_where(e), {'exception': repr(e)[:500], 'trace': traceback.format_exc()[-1500:]},
                       mechanism='unexpected exception ' + type(e).__name__)
     return case
+
+
+def raised_where(e):
+    """clause name for an exception that escaped a check: raised inside the repository (the code under test) or inside the harness"""
+    tb = traceback.extract_tb(e.__traceback__)
+    own = os.path.join(VERIF_DIR, '')
+    inner = next((f.filename for f in reversed(tb) if f.filename.startswith(os.path.join(REPO, '')) or f.filename.startswith(own)), '')
+    return 'code-under-test-raises' if inner.startswith(os.path.join(REPO, '')) and not inner.startswith(own) else 'harness:exception'
 
 
 def worker_main(prop_id, tier, seed, shard, nshards, out_path, only_case=None):
